@@ -3,6 +3,7 @@ CONSTANTS
   Vals = {1, 2}
   MaxLen = 3
   MaxOps = 4
+  Universe = "adv"
   BType = "raw"
   BRawId = ""
   Proj <- NoProj
